@@ -761,14 +761,19 @@ class PressureC14(Monitor):
                                 f'{got!r} != f L rho v^2/(2De) = {fr!r}',
                                 {'friction', 'rodded' if is_rodded(rg)
                                  else rg.model})
-                if getattr(rg, '_gravity', False):
-                    gr = rho * 9.80665 * Lr
-                    got = float(rg._pressure_drop['gravity'])
-                    if abs(got - gr) > 1e-9 * gr:
-                        sim.violate('dp.gravity_closed_form',
-                                    f'asm{a.id} {rg.name}',
-                                    f'{got!r} != rho g L = {gr!r}',
-                                    {'gravity'})
+                # gravity: decided by the input option, not by whatever flag
+                # the region object ended up with
+                want_g = bool(self.spec['setup'].get(
+                    'include_gravity_head_loss'))
+                gr = rho * 9.80665 * Lr if want_g else 0.0
+                got = float(rg._pressure_drop.get('gravity', 0.0))
+                if abs(got - gr) > 1e-9 * max(gr, 1e-300):
+                    sim.violate('dp.gravity_closed_form',
+                                f'asm{a.id} {rg.name}',
+                                f'{got!r} != rho g L = {gr!r} (gravity '
+                                f'option {"on" if want_g else "off"})',
+                                {'gravity', 'rodded' if is_rodded(rg)
+                                 else rg.model})
                 if is_rodded(rg) and 'grid' in rg.corr_constants:
                     K = float(rg.coolant_int_params['grid_loss_coeff'])
                     zs = [z for z in rg.corr_constants['grid']['z']]
@@ -1068,6 +1073,10 @@ class PositivityC04(Monitor):
             return
         sim.fire('state.perturb')
         sim.probe('c04.probe.' + kind)
+        # the update method itself with the walls frozen at their current
+        # values (the operator the step limits are derived for)
+        self._probe_update_method(sim, blob, z, dz, step, p, kind, ai, idx,
+                                  label, feats, delta, r)
         cA = all_coolant(rA)
         cB = all_coolant(rB)
         diff = (cB - cA) / delta
@@ -1105,6 +1114,98 @@ class PositivityC04(Monitor):
                 sim.violate('positivity.column_sum', f'tick {step} {label}',
                             f'flow-weighted column sum {lhs!r} != own flow '
                             f'share {rhs!r}', feats | {'conservation'})
+
+    def _probe_update_method(self, sim, blob, z, dz, step, p, kind, ai, idx,
+                             label, feats, delta, r):
+        """Unit vector in, operator column out, on the real update methods
+        (_calc_coolant_int_temp, _calc_coolant_byp_temp, the low-fidelity
+        _calc_coolant_temp, Core._flow_model) at the reactor-chosen step"""
+        import pickle
+        import dassh
+        # only cells whose walls all separate them from another coolant: a
+        # wall with an adiabatic far side is a slave of the cell (the step
+        # limits rightly leave it out), and the frozen-wall operator says
+        # nothing about it
+        adi = bool(r._is_adiabatic)
+        if kind != 'gap':
+            reg0 = r.assemblies[ai].active_region
+            if kind == 'node' and adi:
+                return
+            if kind in ('edge', 'corner') and adi and \
+                    getattr(reg0, 'n_bypass', 0) == 0:
+                return
+            if kind.startswith('byp') and adi and \
+                    idx[0] == reg0.n_bypass - 1:
+                return
+        cols = []
+        with sim.paused():
+            for d in (0.0, delta):
+                rr = pickle.loads(blob)
+                try:
+                    if kind == 'gap':
+                        core = rr.core
+                        if core.model != 'flow':
+                            return
+                        t_duct = np.array([
+                            dassh.mesh_functions.map_across_gap(
+                                a.duct_outer_surf_temp,
+                                a.active_region._map['duct2gap'])
+                            for a in rr.assemblies])
+                        core._update_coolant_gap_params(
+                            core.avg_coolant_gap_temp)
+                        core.coolant_gap_temp[idx] += d
+                        out = core.coolant_gap_temp + core._flow_model(
+                            dz, t_duct)
+                        cols.append(np.array(out, dtype=float).ravel())
+                        continue
+                    a = rr.assemblies[ai]
+                    reg = a.active_region
+                    adi = bool(rr._is_adiabatic)
+                    if kind.startswith('byp'):
+                        if not flowing_bypass(reg):
+                            return
+                        reg.temp['coolant_byp'][idx] += d
+                        out = reg.temp['coolant_byp'] + \
+                            reg._calc_coolant_byp_temp(dz)
+                    elif kind == 'node':
+                        reg.temp['coolant_int'][idx] += d
+                        out = reg.temp['coolant_int'] + \
+                            reg._calc_coolant_temp(dz, {'refl': 0.0}, adi)
+                    else:
+                        if reg.n_bypass > 0:
+                            reg._update_coolant(reg.avg_coolant_int_temp)
+                        reg.temp['coolant_int'][idx] += d
+                        out = reg.temp['coolant_int'] + \
+                            reg._calc_coolant_int_temp(dz, None, None)
+                    cols.append(np.array(out, dtype=float).ravel())
+                except SystemExit:
+                    return
+        col = (cols[1] - cols[0]) / delta
+        flat = int(np.ravel_multi_index(idx, np.shape(
+            r.assemblies[ai].active_region.temp['coolant_byp']))) \
+            if kind.startswith('byp') else int(idx)
+        self_w = float(col[flat])
+        tol = 1e-10 if self.const else 2e-2
+        f = set(feats) | self._world_feats(r) | {'update_method'}
+        f.add('const' if self.const else 'tdep')
+        sim.probe('c04.method_probe.' + kind)
+        if self._limiting(r) == (kind, ai):
+            f.add('limiting_cell')
+        if self_w < -tol:
+            sim.violate('positivity.update_self_weight',
+                        f'tick {step} {label}',
+                        f'frozen-wall update: weight of the cell on itself is '
+                        f'{self_w!r} < 0 at the selected step dz={float(dz)!r}',
+                        f | {'self_weight'})
+        elif col.min() < -tol:
+            sim.violate('positivity.update_negative_weight',
+                        f'tick {step} {label}',
+                        f'frozen-wall update column has entry {col.min()!r}', f)
+        if col.max() > 1 + tol:
+            sim.violate('positivity.update_weight_gt_one',
+                        f'tick {step} {label}',
+                        f'frozen-wall update column has entry {col.max()!r}',
+                        f)
 
     @staticmethod
     def _limiting(r):
@@ -1162,9 +1263,16 @@ class PositivityC04(Monitor):
     def _choose(self, r, p):
         """(kind, asm index, getter, index, label, features)"""
         want = p.get('kind', 'auto')
+        byp_from_code = None
         if want == 'auto':
             lim = self._limiting(r)
             want, ai = lim
+            if ai is not None and ai < len(r.min_dz['sc']) and \
+                    want.startswith('byp'):
+                try:
+                    byp_from_code = int(str(r.min_dz['sc'][ai]).split('-')[-1])
+                except ValueError:
+                    byp_from_code = None
         else:
             ai = p.get('asm', 0) % len(r.assemblies)
         if want == 'gap':
@@ -1201,6 +1309,8 @@ class PositivityC04(Monitor):
                 return None
             j = int(cand[c % cand.size])
             b = int(p.get('bypass', 0)) % rg.n_bypass
+            if byp_from_code is not None and p.get('cell', 0) % 2 == 0:
+                b = byp_from_code % rg.n_bypass
             return (want, ai,
                     lambda rr: rr.assemblies[ai].active_region.temp['coolant_byp'],
                     (b, j), f'asm{a.id} bypass{b} cell {j}', f | {want})
